@@ -1,0 +1,159 @@
+//! Verification hooks. Compiled only with the `verif` cargo feature (off by default);
+//! nothing in here is reachable from a normal build.
+//!
+//! * a thread-local simulated wall clock, read by the session-expiry decision,
+//! * atomic integer wrappers that call an optional thread-local scheduling-point
+//!   callback before every access, so that a controlled scheduler can interleave
+//!   caller threads at the identifier allocation,
+//! * thread-local probe counters for reach measurement.
+
+#![allow(missing_docs)]
+
+use core::sync::atomic::Ordering;
+use std::{
+    cell::{Cell, RefCell},
+    collections::BTreeMap,
+    time::{Duration, SystemTime},
+};
+
+thread_local! {
+    static NOW: Cell<Option<SystemTime>> = const { Cell::new(None) };
+    static SCHED_POINT: RefCell<Option<Box<dyn FnMut()>>> = const { RefCell::new(None) };
+    static PROBES: RefCell<BTreeMap<&'static str, u64>> = const { RefCell::new(BTreeMap::new()) };
+}
+
+/// Sets the simulated wall clock of the current thread (`None` = use the system clock).
+pub fn set_now(now: Option<SystemTime>) {
+    NOW.with(|cell| cell.set(now));
+}
+
+/// Simulated wall clock of the current thread, the system clock when none is set.
+pub fn now() -> SystemTime {
+    NOW.with(|cell| cell.get()).unwrap_or_else(SystemTime::now)
+}
+
+/// Time elapsed between `earlier` and the simulated clock, zero when it lies in the future.
+pub fn elapsed_since(earlier: SystemTime) -> Duration {
+    now().duration_since(earlier).unwrap_or(Duration::ZERO)
+}
+
+/// Installs (or removes) the callback invoked before every access to the shimmed atomics
+/// on the current thread.
+pub fn set_sched_point(callback: Option<Box<dyn FnMut()>>) {
+    SCHED_POINT.with(|cell| *cell.borrow_mut() = callback);
+}
+
+fn sched_point() {
+    SCHED_POINT.with(|cell| {
+        if let Ok(mut guard) = cell.try_borrow_mut() {
+            if let Some(callback) = guard.as_mut() {
+                callback();
+            }
+        }
+    });
+}
+
+/// Increments the named probe counter of the current thread.
+pub fn probe(name: &'static str) {
+    PROBES.with(|cell| *cell.borrow_mut().entry(name).or_insert(0) += 1);
+}
+
+/// Returns and clears the probe counters of the current thread.
+pub fn take_probes() -> BTreeMap<&'static str, u64> {
+    PROBES.with(|cell| core::mem::take(&mut *cell.borrow_mut()))
+}
+
+macro_rules! shim_atomic {
+    ($name:ident, $int:ty) => {
+        /// Wrapper around the std atomic of the same name with a scheduling point
+        /// before every access.
+        #[derive(Debug)]
+        pub struct $name(core::sync::atomic::$name);
+
+        impl From<$int> for $name {
+            fn from(val: $int) -> Self {
+                Self(core::sync::atomic::$name::new(val))
+            }
+        }
+
+        impl $name {
+            pub fn new(val: $int) -> Self {
+                Self(core::sync::atomic::$name::new(val))
+            }
+
+            pub fn load(&self, order: Ordering) -> $int {
+                sched_point();
+                self.0.load(order)
+            }
+
+            pub fn store(&self, val: $int, order: Ordering) {
+                sched_point();
+                self.0.store(val, order)
+            }
+
+            pub fn swap(&self, val: $int, order: Ordering) -> $int {
+                sched_point();
+                self.0.swap(val, order)
+            }
+
+            pub fn fetch_add(&self, val: $int, order: Ordering) -> $int {
+                sched_point();
+                self.0.fetch_add(val, order)
+            }
+
+            pub fn fetch_sub(&self, val: $int, order: Ordering) -> $int {
+                sched_point();
+                self.0.fetch_sub(val, order)
+            }
+
+            pub fn fetch_max(&self, val: $int, order: Ordering) -> $int {
+                sched_point();
+                self.0.fetch_max(val, order)
+            }
+
+            pub fn compare_exchange(
+                &self,
+                current: $int,
+                new: $int,
+                success: Ordering,
+                failure: Ordering,
+            ) -> Result<$int, $int> {
+                sched_point();
+                self.0.compare_exchange(current, new, success, failure)
+            }
+
+            pub fn compare_exchange_weak(
+                &self,
+                current: $int,
+                new: $int,
+                success: Ordering,
+                failure: Ordering,
+            ) -> Result<$int, $int> {
+                sched_point();
+                self.0.compare_exchange_weak(current, new, success, failure)
+            }
+
+            pub fn fetch_update<F>(
+                &self,
+                set_order: Ordering,
+                fetch_order: Ordering,
+                mut f: F,
+            ) -> Result<$int, $int>
+            where
+                F: FnMut($int) -> Option<$int>,
+            {
+                let mut prev = self.load(fetch_order);
+                while let Some(next) = f(prev) {
+                    match self.compare_exchange_weak(prev, next, set_order, fetch_order) {
+                        Ok(val) => return Ok(val),
+                        Err(val) => prev = val,
+                    }
+                }
+                Err(prev)
+            }
+        }
+    };
+}
+
+shim_atomic!(AtomicU16, u16);
+shim_atomic!(AtomicU32, u32);
